@@ -1798,7 +1798,8 @@ feature! {
             let mut subscribers = self.iter();
             let mut interest = match subscribers.next() {
                 Some(s) => s.register_callsite(metadata),
-                None => return Interest::never(),
+                // Like `Option::None`, an empty `Vec` has no opinion.
+                None => return Interest::always(),
             };
             for s in subscribers {
                 let new_interest = s.register_callsite(metadata);
@@ -1885,6 +1886,12 @@ feature! {
             // If downcasting to `Self`, return a pointer to `self`.
             if id == TypeId::of::<Self>() {
                 return Some(NonNull::from(self).cast());
+            }
+
+            // An empty `Vec` is equivalent to a `None` subscriber: its `OFF`
+            // max level hint must not override the other subscribers' hints.
+            if id == TypeId::of::<NoneLayerMarker>() && self.is_empty() {
+                return Some(NonNull::from(&NONE_LAYER_MARKER).cast());
             }
 
             // Someone is looking for per-subscriber filters. But, this `Vec`
